@@ -797,6 +797,13 @@ class Interp:
                 self.deref_it(tgt, fn, e).store(iv)
                 val[i] = tgt
                 return
+            if isinstance(tgt, Ptr) and tgt.rec is not None and isinstance(iv, Rec):
+                keep = {k_: v_ for k_, v_ in tgt.rec.items() if isinstance(k_, str) and k_.startswith('#')}     # the analysis' own labels are not part of the object
+                tgt.rec.clear()
+                tgt.rec.update(iv)
+                tgt.rec.update(keep)
+                val[i] = tgt
+                return
             self.broken(fn, e, 'placement new at a %s' % type(tgt).__name__)
         if k == 'CXXPseudoDestructorExpr' or (k in ('CXXMemberCallExpr', 'CallExpr') and (e.get('fq') or '').endswith('::~')):
             val[i] = None
